@@ -185,3 +185,55 @@ def join_formula(ctx, rule):
                      % (ok_slice, ok_stem, ok_fin, ok_off),
                      {"witness": "joined spellings 'wi fi' / 'wifi' stop matching or match with a wrong stem"})
     ctx.floor(rule, "join_functions", n, 1)
+
+
+def failed_attempt_is_pure(ctx, rule):
+    """R04.f / R14.h: in the attempt closures of text_match (closures returning Option<()>), no write to captured state can be
+    followed by a `None` return: a failed attempt leaves `stop`, `candidate` and the match vectors untouched, so the scan goes on
+    to the next title word"""
+    facts = ctx.facts
+    n = 0
+    for b in facts.fns():
+        if b.kind != "closure" or not b.id.startswith("matching::text::text_match") or b.local_ty(0) != "std::option::Option<()>":
+            continue
+        n += 1
+        sy = ctx.sym(b)
+        cfg = ctx.cfg(b)
+        fails = []
+        for kind, bi, si, node in b.defs().get(0, []):
+            if kind == "assign":
+                e = sy.rvalue(node["rv"])
+                if e[0] == "agg" and e[2].endswith("Option::None"):
+                    fails.append(bi)
+            elif (node.get("cn") or "").endswith("FromResidual::from_residual"):
+                fails.append(bi)
+        writes = []
+        for bi, si, st in b.iter_stmts():
+            if st["k"] == "assign" and st["place"]["p"] and not b.blocks[bi]["cleanup"]:
+                pl = S.strip_refs(sy.place(st["place"]))
+                root = pl
+                while isinstance(root, tuple) and root and root[0] in ("field", "index", "down", "call"):
+                    root = S.strip_refs(root[1]) if root[0] != "call" else (S.strip_refs(root[2][0]) if root[2] else None)
+                    if root is None:
+                        break
+                if isinstance(root, tuple) and root and root[0] == "upvar":
+                    writes.append((bi, "assignment through captured `%s`" % root[2]))
+        for bi, t in b.calls():
+            name = (t.get("cn") or "").rsplit("::", 1)[-1]
+            if name in ("take", "push", "clear", "insert", "replace", "truncate", "pop", "remove", "swap"):
+                r = S.strip_refs(sy.operand(t["args"][0])) if t["args"] else None
+                if isinstance(r, tuple) and r and r[0] == "upvar":
+                    writes.append((bi, "`%s` on captured `%s`" % (name, r[2])))
+        bad = [(wb, what, fb) for (wb, what) in writes for fb in fails if wb == fb or cfg.path_exists(wb, fb)]
+        key = "failed-attempt-pure:%s" % b.id.rsplit("::", 1)[-1]
+        if not writes:
+            ctx.ok(rule, key, b.where(), "attempt closure writes no captured state")
+        elif not bad:
+            ctx.ok(rule, key, b.where(), "all %d writes to captured state happen after the last point where the attempt can fail" % len(writes),
+                   nontrivial=True, kind="S")
+        else:
+            wb, what, fb = bad[0]
+            ctx.fail(rule, key, where(b, wb), "a match attempt performs %s and can still return None afterwards: a failed attempt "
+                     "changes the scan state (e.g. sets `stop`), so later title words are never compared" % what,
+                     {"witness": "English title 'Metal pipe, metallic finish', query 'metalic'"}, kind="S")
+    ctx.floor(rule, "attempt_closures", n, 3)
